@@ -191,6 +191,7 @@ def run(ctx, exe, tier, seed, counts=None):
     issues = []
     stats = {"events": 0, "episodes": 0, "crashes": 0, "tlc_generated": 0,
              "distinct_nontrivial": 0, "cases": dict(counts)}
+    traces = []
     for mode in MODES:
         total = counts.get(mode, 0)
         if total <= 0:
@@ -209,16 +210,19 @@ def run(ctx, exe, tier, seed, counts=None):
                 if i == 2:
                     ctx.sample(json.loads(line))
                     break
-        res = vlib.validate_sharded("InterpTrace.tla", "InterpTrace.cfg", tr,
-                                    ctx.work)
-        ctx.machinery_errors += res["errors"]
-        issues += issues_from_validation(ctx, res, mode)
-        stats["events"] += res["events"]
-        stats["episodes"] += res["episodes"]
-        stats["tlc_generated"] += res["generated"]
         stats["distinct_nontrivial"] += common.count_distinct_nontrivial(
             tr, _nontrivial)
         _probe_stats(tr, stats)
+        traces.append(tr)
+    if traces:
+        alltr = common.concat(traces, os.path.join(ctx.work, "interp-all.ndjson"))
+        res = vlib.validate_sharded("InterpTrace.tla", "InterpTrace.cfg",
+                                    alltr, ctx.work, shards=vlib.NCPU)
+        ctx.machinery_errors += res["errors"]
+        issues += issues_from_validation(ctx, res, "interp")
+        stats["events"] += res["events"]
+        stats["episodes"] += res["episodes"]
+        stats["tlc_generated"] += res["generated"]
     return issues, stats
 
 
